@@ -137,7 +137,7 @@ def main(tier):
             if m: lines[m.group(1)] = i + 1
         env = dict(os.environ); env['PYTHONPATH'] = os.pathsep.join([ov, site, common.VERIF]); env['OMP_NUM_THREADS'] = '1'
         env['OPENBLAS_NUM_THREADS'] = '1'
-        tmo = 240 if tier == 'quick' else 1500
+        tmo = 240 if tier == 'quick' else 5400
         jobs = [(pyfile, nm, lines[nm], tmo, env) for nm, _, _ in names]
         results = {}
         with concurrent.futures.ThreadPoolExecutor(max_workers=16) as ex:
